@@ -180,28 +180,30 @@ theorem alias_stem_counterexample (cmp : Tree → Tree → Ordering) :
       runLeaves [use [ia 'a' 'x', .list [.mk [.slf (some (n 'x'))], .mk [i 'b']]]] :=
   ⟨rfl, by decide, by decide⟩
 
-/-- `Item`: the keyed leaf set is unchanged provided no import occurs twice with different
-visibility or attributes (and nested paths are non-empty). -/
-theorem granularity_item_leaves_partial (cmp : Tree → Tree → Ordering) (its res : List Item)
-    (h : withGranularity cmp .item its = .ok res) (hne : neRun its = true)
-    (hd : dupSameKey (runLeaves its) = true) : SetEq (runLeaves res) (runLeaves its) := by
+/-- `Item`: the keyed leaf set is unchanged (nested paths non-empty, as the parser builds them):
+flattening, nesting a trailing `self` and dropping repeated imports lose nothing.  (Before the
+repair of `flatten_use_trees` in /repo this needed the hypothesis that no import occurs twice with
+different visibility or attributes: `unique()` compared paths only.) -/
+theorem granularity_item_leaves (cmp : Tree → Tree → Ordering) (its res : List Item)
+    (h : withGranularity cmp .item its = .ok res) (hne : neRun its = true) :
+    SetEq (runLeaves res) (runLeaves its) := by
   simp only [withGranularity, Except.ok.injEq] at h
   subst h
-  exact granularity_item_leaves its hne hd
+  exact RF.Lemmas.Imports.granularity_item_leaves its hne
 
-example : neRun [useNested, useAB, useA] = true ∧
-    dupSameKey (runLeaves [useNested, useAB, useA]) = true := by decide
+example : neRun [useNested, useAB, useA] = true := by decide
 
-/-- The hypothesis is needed: `unique()` uses `Eq`/`Hash for UseTree`, which look at the path only,
-so `#[cfg(x)] use f::B; #[cfg(y)] use f::B;` loses the second declaration with its attribute
-(and `pub use p::q; use p::q;` loses the private one).  Reproduced on the binary. -/
-theorem granularity_item_counterexample (cmp : Tree → Tree → Ordering) :
+/-- The declarations the old code lost are kept: `#[x] use f::B; #[y] use f::B;` and
+`pub use f::B; use f::B;` come out unchanged, while a plain repetition is dropped. -/
+theorem granularity_item_keeps_keyed_twins (cmp : Tree → Tree → Ordering) :
     let a : Item := ⟨.mk [i 'f', i 'B'], some [], some (n 'x'), false⟩
     let b : Item := ⟨.mk [i 'f', i 'B'], some [], some (n 'y'), false⟩
-    withGranularity cmp .item [a, b] = .ok [a] ∧
-    (⟨[], some (n 'y'), ⟨[.name (n 'f') none, .name (n 'B') none], none⟩⟩ : ItemLeaf) ∈ runLeaves [a, b] ∧
-    (⟨[], some (n 'y'), ⟨[.name (n 'f') none, .name (n 'B') none], none⟩⟩ : ItemLeaf) ∉ runLeaves [a] :=
-  ⟨rfl, by decide, by decide⟩
+    let p : Item := ⟨.mk [i 'f', i 'B'], some ['p', 'u', 'b'], none, false⟩
+    let q : Item := ⟨.mk [i 'f', i 'B'], some [], none, false⟩
+    withGranularity cmp .item [a, b] = .ok [a, b] ∧
+    withGranularity cmp .item [p, q] = .ok [p, q] ∧
+    withGranularity cmp .item [q, q] = .ok [q] :=
+  ⟨rfl, rfl, rfl⟩
 
 /-- `Preserve` returns the run unchanged. -/
 theorem granularity_preserve (cmp : Tree → Tree → Ordering) (its : List Item) :
